@@ -20,15 +20,20 @@ ParseAdmissible(e) == Judge(e.text, e.cls, e.consumed, e.raw)           \* C09
 \* ---- classes of the recorded (not repaired) formatter defects, identified by the oracle itself
 \*  P0     real number formatted with precision 0 (every format is wrong there)
 \*  ROUND  the text is the reference text with the cut rounded in the other direction (lost sticky bit / ties forced up)
-\*  ZEROS  the non-zero digits are right but zeros of the integer part were lost / the point is missing (fixed layouts only)
+\*  ZEROS  the non-zero digits are right but zeros of the integer part were lost / the point is missing, for a value whose integer part
+\*         has more digits than the library's estimate (LibDigits: the digits of 2^exponent) - the recorded mechanism, nothing wider
 Skeleton(t) == SelectSeq(t, LAMBDA c : c # 48 /\ c # 46)          \* the text without zeros and point
+RECURSIVE IntDigitsFrom(_, _)
+IntDigitsFrom(t, i) == IF i > Len(t) \/ t[i] = 46 THEN 0 ELSE (IF t[i] >= 48 /\ t[i] <= 57 THEN 1 ELSE 0) + IntDigitsFrom(t, i + 1)
+IntDigits(t) == IntDigitsFrom(t, 1)                              \* digits before the point
 NoExp(t) == \A i \in 1..Len(t) : t[i] # 101
 DefectClass(e) ==
     IF ~IsReal(e.kind) THEN "MISMATCH"
     ELSE IF e.p = 0 THEN "P0"                  \* (reads / writes beside the digit buffer: the text, and whether the widths agree, vary from run to run)
     ELSE IF e.prefix # 1 \/ e.wsame # 1 THEN "MISMATCH"
-    ELSE IF e.out \in {RealTextM(e.kind, e.bits, e.fmt, e.p, "up"), RealTextM(e.kind, e.bits, e.fmt, e.p, "down")} THEN "ROUND"
-    ELSE IF NoExp(e.out) /\ NoExp(Expected(e)) /\ e.out # <<>> /\ Skeleton(e.out) = Skeleton(Expected(e)) THEN "ZEROS"
+    ELSE IF e.out = RealTextLib(e.kind, e.bits, e.fmt, e.p) THEN "ROUND"          \* exactly the recorded flag defect (QDigitFormat.LibSticky), nothing wider
+    ELSE IF e.out \in {RealTextM(e.kind, e.bits, e.fmt, e.p, "up"), RealTextM(e.kind, e.bits, e.fmt, e.p, "down")} THEN "ROUNDX"   \* another wrong direction: reported
+    ELSE IF NoExp(e.out) /\ NoExp(Expected(e)) /\ e.out # <<>> /\ Skeleton(e.out) = Skeleton(Expected(e)) /\ IntDigits(Expected(e)) > LibDigits(e.kind, e.bits) THEN "ZEROS"
     ELSE "MISMATCH"
 EventOK(e) == IF "text" \in DOMAIN e THEN RoundTripOK(e) ELSE FormatOK(e)
 \* which side breaks a failing round trip (reported, not decided here)
